@@ -1,4 +1,5 @@
 import CattrsModel.FieldConv.Lemmas
+import CattrsModel.FieldConv.History
 import CattrsModel.Core.ObjDecEq
 /-!
 # C20 — attrs field converters compose with structure hooks as documented
@@ -68,6 +69,27 @@ theorem C20_rule_untyped (env : Env T) (f : FField T) (k : Obj → Option Obj) (
     (hk : f.conv = some k) (ht : f.ty = Option.none) :
     fieldSpec env false f raw = k raw := by
   simp [fieldSpec, hk, ht]
+
+/-- default mode, the field's type closes a REFERENCE CYCLE: looking its hook up while the class hook is being generated
+ends in a `RecursionError`.  That is not "no hook can be found": `find_structure_handler` answers with the late-bound
+`c.structure` (its outer `except RecursionError`), the template emits `c.structure(o[k], t)`, and the rule's
+"`T`'s structure hook" is what that call reaches: the value is `K (hook raw)`, in the generated templates and in
+`_structure_attribute` alike. -/
+theorem C20_rule_cycle (env : Env T) (f : FField T) (k : Obj → Option Obj) (t : T) (raw : Obj)
+    (hk : f.conv = some k) (ht : f.ty = some t) (hc : env.disp t = .cycle) :
+    findHandler env false f = some (.late t) ∧
+    fieldSpec env false f raw = (env.late t raw).toOption.bind k ∧
+    (applyHandler env (.late t) raw).toOption.bind (applyConv f) = fieldSpec env false f raw ∧
+    ((env.late t raw ≠ .shnf) → (structAttr env false f raw).bind (applyConv f) = fieldSpec env false f raw) := by
+  have hac : applyConv f = k := by funext v; simp [applyConv, hk]
+  refine ⟨?_, ?_, ?_, ?_⟩
+  · simp [findHandler, hk, ht, hc]
+  · simp [fieldSpec, hk, ht, hasHook, hookResult, hc]
+  · simp [fieldSpec, hk, ht, hasHook, hookResult, hc, applyHandler, hac]
+  · intro hne
+    rw [hac]
+    simp only [structAttr, fieldSpec, hk, ht, hasHook, hookResult, hc, callDisp]
+    cases hr : env.late t raw <;> simp_all [HR.toOption]
 
 /-- fields without a converter are unaffected by the flag -/
 theorem C20_rule_noconv (env : Env T) (f : FField T) (raw : Obj) (hk : f.conv = Option.none) :
@@ -238,9 +260,12 @@ theorem exEnvOk_noDeep : NoDeepSHNF exEnvOk := by
       simp [exEnvOk, exEnv] at hd
       subst hd
       cases x <;> simp
-  · intro t x _
-    simp only [exEnvOk, exEnv]
-    split <;> simp
+  · refine ⟨?_, ?_⟩
+    · intro t x _
+      simp only [exEnvOk, exEnv]
+      split <;> simp
+    · intro t x _
+      simp [exEnvOk, exEnv]
 
 theorem exFields_noEscape (prefer : Bool) : NoLazyEscape exEnvOk prefer exFields := by
   intro f hf he
@@ -319,6 +344,107 @@ theorem C20_F36_witness :
     have := h.1 2 _ (.str "5") rfl
     simp at this
 
+/-! ### reference cycles -/
+
+/-- type 4 = a class that is being generated (`Node` inside `Node`): the lookup ends in a `RecursionError`; at call
+time `c.structure(x, Node)` builds the instance (here: wraps the raw value in a list, so that it is recognisable) -/
+def exCyc : Env Nat :=
+  { exEnv with
+    disp := fun t => match t with | 4 => .cycle | t => exEnv.disp t
+    late := fun _ x => .ok (.coll .list [x]) }
+
+def cycField : FField Nat := { name := "link", ty := some 4, conv := some (exK "K"), dflt := some .none }
+
+def cycFields : List (FField Nat) := [cycField]
+
+/-- non-vacuity of `C20_rule_cycle` / `C20_gen_exact` on a cycle-closing converter field, and the **regression
+witness** (replayed on the implementation by the reference-cycle stream of the check): both templates and the
+interpretive path give `K (hook raw)`; had the `RecursionError` been taken for "no hook can be found" (handler `None`),
+the field would hold `K raw`. -/
+theorem C20_cycle_witness :
+    findHandler exCyc false cycField = some (.late 4)
+    ∧ genFast exCyc false cycFields [("link", .str "n")] = some [("link", .coll .tuple [.str "K", .coll .list [.str "n"]])]
+    ∧ genDetailed exCyc false cycFields [("link", .str "n")] = some [("link", .coll .tuple [.str "K", .coll .list [.str "n"]])]
+    ∧ interpDict exCyc false cycFields [("link", .str "n")] = some [("link", .coll .tuple [.str "K", .coll .list [.str "n"]])]
+    ∧ (applyHandler exCyc Handler.none (.str "n")).toOption.bind (exK "K") = some (.coll .tuple [.str "K", .str "n"])
+    ∧ (applyHandler exCyc Handler.none (.str "n")).toOption.bind (exK "K") ≠ fieldSpec exCyc false cycField (.str "n") := by
+  refine ⟨?_, ?_, ?_, ?_, ?_, ?_⟩
+  · simp [findHandler, cycField, exCyc]
+  · simp [genFast, genHandlers, findHandler, fastArgs, fastArg, lookup, applyHandler, attrsInit, applyConv, HR.toOption,
+      cycFields, cycField, exCyc, exK]
+  · simp [genDetailed, genHandlers, findHandler, detailedArgs, detailedArg, lookup, applyHandler, attrsInit, applyConv,
+      HR.toOption, cycFields, cycField, exCyc, exK]
+  · simp [interpDict, interpDictArgs, structAttr, lookup, attrsInit, applyConv, callDisp, cycFields, cycField, exCyc, exK]
+  · simp [applyHandler, HR.toOption, exK]
+  · simp [applyHandler, HR.toOption, exK, fieldSpec, hasHook, hookResult, cycField, exCyc]
+
 end Examples
+
+/-! ### one converter over time: structure, register, structure again -/
+
+/-- **The handler choice is a function of the CURRENT registrations.**  For every configuration, every world of
+classes, every meaning of the registrations (`envAt`: an arbitrary function from the registrations made so far to the
+lookup — whatever precedence the dispatch gives the three registration APIs), and every history of registrations,
+`structure` calls and `copy()`s on ONE converter: a `structure` call now answers exactly what a converter holding the
+current registrations answers (`structDict` under `envAt (regsOf hist [])`) — whatever was structured before, in
+particular a converter field whose type had no hook then and has one now.  With `C20_spec_partial` that is the
+three-way rule under the current registrations. -/
+theorem C20_history_current {R : Type} (cfg : FCfg) (world : Nat → List (FField T)) (envAt : List R → Env T)
+    (hist : List (Step R)) (cls : Nat) (kvs : List (String × Obj)) :
+    (useStep cfg world envAt (run cfg world envAt hist init) cls kvs).2
+      = structDict cfg (envAt (regsOf hist [])) (world cls) kvs :=
+  history_current cfg world envAt hist cls kvs
+
+/-- … hence (F35 / F36 regions excluded as in `C20_spec_partial`) it is the documented rule under the current
+registrations, and two converters with the same flag agree after ANY two histories that made the same registrations. -/
+theorem C20_history_rule_partial {R : Type} (cfg : FCfg) (world : Nat → List (FField T)) (envAt : List R → Env T)
+    (hist : List (Step R)) (cls : Nat) (kvs : List (String × Obj))
+    (hn : NoDeepSHNF (envAt (regsOf hist []))) (hne : NoLazyEscape (envAt (regsOf hist [])) cfg.prefer (world cls)) :
+    (useStep cfg world envAt (run cfg world envAt hist init) cls kvs).2
+      = classSpec (envAt (regsOf hist [])) cfg.prefer (rawsDict (world cls) kvs) := by
+  rw [C20_history_current]
+  exact (C20_spec_partial _ hn (world cls) cfg hne).1 kvs
+
+section HistoryExamples
+
+/-- registrations are type indices; a registered type gets a hook that wraps the raw value in a list -/
+def hEnvAt (regs : List Nat) : Env Nat :=
+  { disp := fun t => if regs.contains t then .fn (fun x => .ok (.coll .list [x])) else .notFound
+    construct := fun _ _ => .fail }
+
+def hWorld : Nat → List (FField Nat) := fun _ =>
+  [ { name := "x", ty := some 1, conv := some (exK "K"), dflt := Option.none } ]
+
+def hCfg : FCfg := { gen := true, tupleStrat := false, detailed := false, prefer := false }
+
+def hHist : List (Step Nat) := [.use 0 [("x", .str "5")], .reg 1]
+
+/-- non-vacuity: before the registration `K raw`, after it `K (hook raw)` -/
+example : (useStep hCfg hWorld hEnvAt (init : CState Nat Nat) 0 [("x", .str "5")]).2
+      = some [("x", .coll .tuple [.str "K", .str "5"])]
+    ∧ (useStep hCfg hWorld hEnvAt (run hCfg hWorld hEnvAt hHist init) 0 [("x", .str "5")]).2
+      = some [("x", .coll .tuple [.str "K", .coll .list [.str "5"]])] := by
+  constructor
+  · simp [useStep, hCfg, init, hcLookup, genHandlers, findHandler, hWorld, hEnvAt, runHandlers, fastArgs, fastArg, lookup,
+      applyHandler, attrsInit, applyConv, HR.toOption, exK]
+  · rw [C20_history_current]
+    simp [structDict, hCfg, genFast, genHandlers, findHandler, hWorld, hEnvAt, regsOf, hHist, fastArgs, fastArg, lookup,
+      applyHandler, callDisp, attrsInit, applyConv, HR.toOption, exK]
+
+/-- **Negative witness** (replayed on the implementation by the registration-history stream of the check): the same
+machine WITHOUT the invalidation — a memo of earlier decisions that registrations do not clear — still answers `K raw`
+after the hook was registered, where the rule under the current registrations gives `K (hook raw)`. -/
+theorem C20_history_stale_witness :
+    (useStep hCfg hWorld hEnvAt (runWith false hCfg hWorld hEnvAt hHist init) 0 [("x", .str "5")]).2
+      = some [("x", .coll .tuple [.str "K", .str "5"])]
+    ∧ structDict hCfg (hEnvAt (regsOf hHist [])) (hWorld 0) [("x", .str "5")]
+      = some [("x", .coll .tuple [.str "K", .coll .list [.str "5"]])] := by
+  constructor
+  · simp [runWith, stepWith, useStep, hCfg, init, hHist, hcLookup, genHandlers, findHandler, hWorld, hEnvAt, runHandlers,
+      fastArgs, fastArg, lookup, applyHandler, attrsInit, applyConv, HR.toOption, exK]
+  · simp [structDict, hCfg, genFast, genHandlers, findHandler, hWorld, hEnvAt, regsOf, hHist, fastArgs, fastArg, lookup,
+      applyHandler, callDisp, attrsInit, applyConv, HR.toOption, exK]
+
+end HistoryExamples
 
 end CattrsModel
